@@ -276,8 +276,12 @@ class _XInfo:
         return st
 
 
-def _judge_mask(info, lr, ur, la, ua, sel, counts):
-    """Returns None if the observed selection conforms, else (mechanism, witness)."""
+ZERO_NAME = "active-set/removes-everything-when-count-rounds-to-zero"
+
+
+def _judge_mask(info, lr, ur, la, ua, sel, counts, zero_probe=None):
+    """Returns None if the observed selection conforms, else (mechanism, witness).  `zero_probe(side)` tells whether
+    the fraction of that side ALONE, whose count rounds to zero, empties the set (attribution of an empty result)."""
     n = info.n
     cl = _count_candidates(n, float(la)) if la > 0 else (0,)
     ch = _count_candidates_upper(n, float(ua)) if ua < 1 else (0,)
@@ -300,7 +304,9 @@ def _judge_mask(info, lr, ur, la, ua, sel, counts):
     nkept = int(np.count_nonzero(selarr))
 
     def removes_everything():
-        return nkept == 0 and ((ua < 1 and 0 in ch) or (la > 0 and 0 in cl))
+        if nkept != 0 or zero_probe is None:
+            return False
+        return (ua < 1 and 0 in ch and zero_probe("upper")) or (la > 0 and 0 in cl and zero_probe("lower"))
 
     if info.flat:
         counts["flat"] += 1
@@ -308,7 +314,7 @@ def _judge_mask(info, lr, ur, la, ua, sel, counts):
         if ok:
             return None
         if removes_everything():
-            return "active-set/removes-everything-when-count-rounds-to-zero", dict(cfg, n=n, kept=nkept, x=info.x)
+            return ZERO_NAME, dict(cfg, n=n, kept=nkept, x=info.x)
         return "active-set/all-equal-data-neither-fully-selected-nor-count-based", dict(cfg, n=n, kept=nkept, x=info.x)
 
     st = info.band_status(lr, ur, counts)
@@ -322,8 +328,8 @@ def _judge_mask(info, lr, ur, la, ua, sel, counts):
             ok = np.where(st == IN, kept == want, np.where(st == OUT, kept == 0, (kept == 0) | (kept == want)))
             if ok.all():
                 return None
-            if first is None:
-                first = (a, b, want, ok)
+            if first is None or int((~ok).sum()) < int((~first[3]).sum()):
+                first = (a, b, want, ok)      # the admissible count pair that explains most of the observation
     a, b, want, ok = first
     g = int(np.nonzero(~ok)[0][0])
     wit = dict(cfg, n=n, n_lowest_removed_expected=list(cl), n_highest_removed_expected=list(ch), kept_total=nkept,
@@ -331,7 +337,7 @@ def _judge_mask(info, lr, ur, la, ua, sel, counts):
                kept_with_value=int(kept[g]), expected_kept_with_value=int(want[g]) if st[g] != OUT else 0,
                x=info.x, mask=selarr)
     if removes_everything():
-        return "active-set/removes-everything-when-count-rounds-to-zero", wit
+        return ZERO_NAME, wit
     if st[g] == OUT:
         return "active-set/keeps-entry-outside-value-band", wit
     if kept[g] > want[g]:
@@ -362,8 +368,23 @@ def _run_mask(pym, rec, info, cfg, counts):
     lr, ur, la, ua = cfg
     aset = pym.AggActiveSet(lower_rel=lr, upper_rel=ur, lower_amt=la, upper_amt=ua)
     sel = aset(info.x)
-    bad = _judge_mask(info, lr, ur, la, ua, sel, counts)
+
+    def zero_probe(side):
+        # the suspected fraction on its own, same data: does it (requesting zero whole entries) empty the set?
+        alone = pym.AggActiveSet(lower_amt=la) if side == "lower" else pym.AggActiveSet(upper_amt=ua)
+        got = alone(info.x)
+        return got is not Ellipsis and not np.any(np.asarray(got))
+
+    bad = _judge_mask(info, lr, ur, la, ua, sel, counts, zero_probe)
     if bad is not None:
+        if bad[0] != ZERO_NAME and (lr > 0 or ur < 1) and (la > 0 or ua < 1):
+            # attribution only: judge the value band and the sorted counts separately on the same data
+            for part in ((lr, ur, 0.0, 1.0), (0.0, 1.0, la, ua)):
+                got = pym.AggActiveSet(lower_rel=part[0], upper_rel=part[1], lower_amt=part[2], upper_amt=part[3])(info.x)
+                sub = _judge_mask(info, *part, got, _new_counts(), None)
+                if sub is not None:
+                    rec(sub[0], found_in_combination=bad[1], **{k: v for k, v in sub[1].items() if k != "x"})
+                    return False
         rec(bad[0], **bad[1])
     return bad is None
 
